@@ -1,5 +1,6 @@
 import OtelVerif.Common.Line
 import OtelVerif.Model.C03
+import OtelVerif.Model.C03Replay
 /-! driver for C03: model `c03-shutdown` — the Lean monitor `C03.verdict` evaluated on the recorded trace of the real exporter -/
 open OtelVerif OtelVerif.Line OtelVerif.C03
 
@@ -22,15 +23,26 @@ structure S where
   uac : Option String := none
   skipped : Bool := false
   bad : Option String := none
+  retry : Bool := false
+  maxElapsed : Nat := 0
+  consumers : Nat := 1
+  wrap : Bool := false
+  wfr : Bool := false
+  itemsSized : Bool := false
+  tevs : List OtelVerif.C03.Replay.TEv := []    -- reversed: the full trace for the replay through `fire`
+  ends : List (Nat × Bool × Bool × Bool) := []   -- (call, failed, permanent, retries were left)
 
 def handler : Handler S where
   init := {}
   onOp := fun s toks =>
     match toks with
     | "cfg" :: rest =>
-      match kvNat rest "persistent", kvNat rest "batch", kvNat rest "queue", kvNat rest "retry", kvNat rest "consumers" with
-      | some p, some b, some _, some _, some _ => ({ s with persistent := p == 1, batch := b, haveCfg := true }, [])
-      | _, _, _, _, _ => (s, ["obs bad-op"])
+      match kvNat rest "persistent", kvNat rest "batch", kvNat rest "queue", kvNat rest "retry", kvNat rest "consumers", kvNat rest "maxelapsed" with
+      | some p, some b, some _, some r, some nc, some me =>
+        ({ s with persistent := p == 1, batch := b, haveCfg := true, retry := r == 1, maxElapsed := me, consumers := nc,
+                  wrap := kvNat rest "wrap" == some 1, wfr := kvNat rest "wfr" == some 1 || kvNat rest "queue" == some 0,
+                  itemsSized := kv rest "sizer" == some "items" && kvNat rest "queue" == some 1 }, [])
+      | _, _, _, _, _, _ => (s, ["obs bad-op"])
     | ["act", at_, "shutdown"] => if at_.toNat?.isSome then (s, []) else (s, ["obs bad-op"])
     | ["act", at_, "send", rid, n] =>
       if at_.toNat?.isSome && rid.toNat?.isSome && n.toNat?.isSome then (s, []) else (s, ["obs bad-op"])
@@ -39,22 +51,39 @@ def handler : Handler S where
     | _ => (s, ["obs bad-op"])
   onObs := fun s toks =>
     match toks with
-    | ["tr", "acc", _, ids] =>
-      match parseIds ids with
-      | some is => { s with evs := Ev.acc is :: s.evs }
-      | none => { s with bad := some "acc" }
-    | ["tr", "rej", _, _] => s
-    | ["tr", "shutreq"] => { s with evs := Ev.shutReq :: s.evs }
-    | ["tr", "shutret", _] => { s with evs := Ev.shutRet :: s.evs }
+    | ["tr", "acc", rid, ids] =>
+      match rid.toNat?, parseIds ids with
+      | some rid, some is => { s with evs := Ev.acc is :: s.evs, tevs := .acc rid is :: s.tevs }
+      | _, _ => { s with bad := some "acc" }
+    | ["tr", "rej", rid, ids] =>
+      match rid.toNat?, parseIds ids with
+      | some rid, some is => { s with tevs := .rej rid is :: s.tevs }
+      | _, _ => { s with bad := some "rej" }
+    | ["tr", "shutreq"] => { s with evs := Ev.shutReq :: s.evs, tevs := .shutreq :: s.tevs }
+    | ["tr", "shutret", _] => { s with evs := Ev.shutRet :: s.evs, tevs := .shutret :: s.tevs }
     | ["tr", "es", c, ids] =>
       match c.toNat?, parseIds ids with
-      | some c, some is => { s with evs := Ev.es c is :: s.evs }
+      | some c, some is => { s with evs := Ev.es c is :: s.evs, tevs := .es c is :: s.tevs }
       | _, _ => { s with bad := some "es" }
-    | ["tr", "ee", c, f] =>
-      match c.toNat?, f.toNat? with
-      | some c, some f => { s with evs := Ev.ee c (f == 1) :: s.evs }
-      | _, _ => { s with bad := some "ee" }
-    | ["tr", "wshut"] => s
+    | ["tr", "ee", c, f, pm, af] =>
+      match c.toNat?, f.toNat?, pm.toNat?, af.toNat? with
+      | some c, some f, some pm, some af =>
+        { s with evs := Ev.ee c (f == 1) :: s.evs, ends := (c, f == 1, pm == 1, af == 1) :: s.ends,
+                 tevs := .ee c (f == 1) (pm == 1) (af == 1) :: s.tevs }
+      | _, _, _, _ => { s with bad := some "ee" }
+    | ["tr", "ss", rid, ids] =>
+      match rid.toNat?, parseIds ids with
+      | some rid, some is => { s with tevs := .ss rid is :: s.tevs }
+      | _, _ => { s with bad := some "ss" }
+    | "tr" :: "ms" :: rest =>
+      match kvNat rest "first", (kv rest "cur").bind parseIds, (kv rest "req").bind parseIds, kv rest "res", kvNat rest "keep", kvNat rest "err" with
+      | some f, some cur, some req, some res, some k, some er =>
+        if er == 1 then s else
+        match (if res = "-" then some [] else (res.splitOn ";").mapM parseIds) with
+        | some rl => { s with tevs := .ms (f == 1) cur req rl (k == 1) :: s.tevs }
+        | none => { s with bad := some "ms" }
+      | _, _, _, _, _, _ => { s with bad := some "ms" }
+    | ["tr", "wshut"] => { s with tevs := .wshut :: s.tevs }
     | ["tr", "uac", op] => { s with uac := some op }
     | ["tr", "stored", ids] =>
       match parseIds ids with
@@ -81,12 +110,26 @@ def handler : Handler S where
       let kind := if s.persistent then "persistent" else "memory"
       let und := if s.persistent then lostPersistent t s.stored else v.undrained
       let unrec := if s.persistent then (lostPersistent t s.recovered).filter (fun x => s.stored.contains x) else []
-      let obs := s!"obs verdict returned={if v.returned then 1 else 0} undrained={showIds und} unrecovered={showIds unrec} dup={showIds v.duplicated} open={showIds v.openCalls} late={showIds v.lateCalls}"
+      -- persistent queue: a flight whose last call failed retryably with retries left can only have been ended by the shutdown:
+      -- it has not finished export, its items must still be in storage
+      let pre := evsBefore isShutRet t
+      let starts := startsOf pre
+      let lastOf : List (Nat × List Nat) := starts.filter (fun p => !(starts.any (fun q => q.2 == p.2 && decide (p.1 < q.1))))
+      let intr : List Nat :=
+        if s.persistent && s.retry && t.any isShutReq then
+          (lastOf.filter (fun p => s.ends.any (fun e => e.1 == p.1 && e.2.1 && !e.2.2.1 && e.2.2.2))).flatMap
+            (fun p => p.2.filter (fun x => (earlyItems t).contains x && !s.stored.contains x))
+        else []
+      let intr := intr.mergeSort (· ≤ ·)
+      let obs := s!"obs verdict returned={if v.returned then 1 else 0} undrained={showIds und} unrecovered={showIds unrec} interrupted={showIds intr} dup={showIds v.duplicated} open={showIds v.openCalls} late={showIds v.lateCalls}"
       let pReturned := if v.returned then "prop returns=ok" else s!"prop returns=FAIL sig=C03/shutdown/never-returns queue={kind} batch={s.batch}"
       let pDrained :=
         if !v.returned || und.isEmpty then "prop drained=ok"
         else if s.persistent then s!"prop drained=FAIL sig=C03/persistent/accepted-item-neither-exported-nor-stored items={showIds und} batch={s.batch}"
         else s!"prop drained=FAIL sig=C03/memory/accepted-item-never-exported items={showIds und} batch={s.batch}"
+      let pIntr :=
+        if !v.returned || intr.isEmpty then "prop interrupted=ok"
+        else s!"prop interrupted=FAIL sig=C03/persistent/shutdown-interrupted-item-not-stored items={showIds intr} batch={s.batch}"
       let pRecover :=
         if !v.returned || unrec.isEmpty then "prop redelivered=ok"
         else s!"prop redelivered=FAIL sig=C03/persistent/stored-item-not-redelivered-by-next-start items={showIds unrec} batch={s.batch}"
@@ -99,10 +142,27 @@ def handler : Handler S where
         else if !v.lateCalls.isEmpty then s!"prop quiet=FAIL sig=C03/quiet/export-call-begins-after-return calls={showIds v.lateCalls} batch={s.batch}"
         else if s.leak > 0 then s!"prop quiet=FAIL sig=C03/quiet/goroutine-left-running n={s.leak} queue={kind} batch={s.batch}"
         else "prop quiet=ok"
+      -- the strengthened tie: the recorded trace must be a run of the LTS (hidden steps inferred, every fired label enabled)
+      let batching := s.batch != 0
+      let pRefine :=
+        if !v.returned || (batching && !s.wrap) then "prop refine=skipped"
+        else
+          let tr := s.tevs.reverse
+          let rc : OtelVerif.C03.Replay.RCfg :=
+            { cfg := { persistent := s.persistent, batching := batching, retry := s.retry, wfr := s.wfr, itemsSized := s.itemsSized }
+              nCons := if batching then 1 else s.consumers
+              workers := if batching then 1 else 0
+              timer := batching
+              stored := s.stored
+              sends := tr.filterMap (fun e => match e with | .ss rid ids => some (rid, ids) | _ => none) }
+          let rs := OtelVerif.C03.Replay.replay rc tr
+          match rs.err with
+          | none => s!"prop refine=ok steps={rs.steps}"
+          | some (k, d) => s!"prop refine=FAIL sig=C03/refinement/{k} {d.replace " " "_"}"
       let pStore := match s.uac with
         | some op => s!"prop storage=FAIL sig=C03/persistent/storage-used-after-close op={op}"
         | none => "prop storage=ok"
-      [obs, pReturned, pDrained, pRecover, pOnce, pQuiet, pStore]
+      [obs, pReturned, pDrained, pIntr, pRecover, pOnce, pQuiet, pStore, pRefine]
 
 end OtelVerif.Drivers.C03
 
